@@ -42,7 +42,7 @@ theorem final_save_last {n mx : Nat} {s : St} (hr : Reachable n mx s)
   intro th hth
   have hT := hI.2 th hth
   unfold TInv at hT
-  exact (hT.2.2.2.2.2.2.2.2.2.2.2.2.2.2 (hT.2.2.2.2.2.2.2.2.1 h)).1
+  exact (hT.2.2.2.2.2.2.2.2.2.2.2.2.2.2.1 (hT.2.2.2.2.2.2.2.2.1 h)).1
 
 /-- A thread that was never started does nothing, and once the control thread has left the start-up
 section of `launch()` (normally or by an interrupt) no thread is started any more. -/
